@@ -34,8 +34,16 @@ def H(i):
     return {"op": "hb", "i": B(i)}
 
 
-def R(u, i, used=1, lvl=50):
-    return {"op": "report", "u": B(u), "i": B(i), "used": used, "lvl": lvl}
+def R(u, i, used=1, lvl=50, wc=False):
+    return {"op": "report", "u": B(u), "i": B(i), "used": used, "lvl": lvl, "wc": wc}
+
+
+def GONE(u):
+    return {"op": "clustergone", "u": B(u)}
+
+
+def SET(u):
+    return {"op": "clusterset", "u": B(u)}
 
 
 def A(u, i, n):
@@ -76,6 +84,14 @@ def corpus():
     # count limit: refused increases, lowering, exactly at the limit; unknown upstream
     cs.append(case([H(b"g1"), H(b"g2"), A(b"a", b"g1", 6), A(b"a", b"g2", 5), A(b"a", b"g2", 4), A(b"a", b"g1", 7), A(b"a", b"g1", 0),
                     A(b"c", b"g1", 1), R(b"c", b"g1"), ADV(3200), TT, A(b"a", b"g3", 10)]))
+    # upstream removed from the lister without the handler running: the unknown-condition pass deletes it as
+    # a whole (also the state of live instances of that upstream), the other upstream is untouched; re-added later
+    cs.append(case([H(b"g1"), H(b"g2"), R(b"a", b"g1", wc=True), R(b"b", b"g1", wc=True), R(b"a", b"g2"), A(b"a", b"g1", 3), A(b"b", b"g1", 2),
+                    GONE(b"a"), ADV(1000), H(b"g1"), H(b"g2"), TT, R(b"a", b"g1"), TU, R(b"a", b"g1"), A(b"a", b"g1", 1), A(b"b", b"g1", 4),
+                    SET(b"a"), R(b"a", b"g1", wc=True), A(b"a", b"g1", 1), SET(b"c"), R(b"c", b"g2"), GONE(b"c"), H(b""), TU, ADV(3500), TT, TU]))
+    # an instance called "state" has the name of the upstream state condition: nothing is stored for it
+    cs.append(case([H(b"state"), H(b"g1"), R(b"a", b"state", wc=True), R(b"a", b"g1"), R(b"a", b"state"), A(b"a", b"state", 4),
+                    ADV(3500), H(b"g1"), TT, TU, R(b"a", b"g1", wc=True)]))
     return cs
 
 
@@ -84,6 +100,10 @@ def gen_hist(rng, boundary=False):
     insts = list(INST)
     if boundary and rng.chance(1, 2):
         insts.append(b"")
+    if boundary and rng.chance(1, 2):
+        insts.append(b"state")
+    churn = rng.chance(1, 3)      # upstream removal / re-creation in this history
+    listed = set(ups)
     cmax = rng.choice([5, 10, 10, 20])
     alive = {}            # instance -> True (heartbeating) / False (silent)
     hbt = {}
@@ -113,14 +133,22 @@ def gen_hist(rng, boundary=False):
                     ops.append(H(i))
                     hbt[i] = now
                 for _ in range(rng.below(3)):
-                    u = rng.choice(ups)
+                    u = rng.choice(ups + ([b"c"] if churn else []))
                     if rng.chance(3, 5):
-                        ops.append(R(u, i, rng.randint(0, 30), rng.choice([0, 20, 50, 90, 120])))
+                        ops.append(R(u, i, rng.randint(0, 30), rng.choice([0, 20, 50, 90, 120]), wc=rng.chance(1, 2)))
                     else:
                         ops.append(A(u, i, rng.randint(0, cmax + 2) if rng.chance(4, 5) else 0))
             elif rng.chance(1, 12):
                 # half-dead: acts without heartbeating
                 ops.append(R(rng.choice(ups), i) if rng.chance(1, 2) else A(rng.choice(ups), i, rng.randint(0, 5)))
+        if churn and rng.chance(1, 4):
+            u = rng.choice(ups + [b"c"])
+            if u in listed and rng.chance(2, 3):
+                ops.append(GONE(u))
+                listed.discard(u)
+            else:
+                ops.append(SET(u))
+                listed.add(u)
         dt = rng.choice([400, 900, 1000, 1000, 1100, 1600, 2100, 3400, 6000, 31000])
         ops.append(ADV(dt))
         now += dt
@@ -167,6 +195,10 @@ def c_op(o, s):
         return "TickUnknown"
     if k == "advance":
         return "(Advance %s)" % cZ(o["dt"])
+    if k == "clustergone":
+        return "(ClusterGone %s)" % cstr(o["u"])
+    if k == "clusterset":
+        return "(ClusterSet %s)" % cstr(o["u"])
     raise ValueError(k)
 
 
@@ -182,7 +214,9 @@ def c_obs(o, s):
     sums = clist([cpair(cstr(x["u"]), cZ(x["s"])) for x in s["sums"]])
     cnts = clist([cpair(cstr(x["u"]), cpair(clist([cpair(cstr(e["i"]), cZ(e["c"])) for e in x["entries"]]), cZ(x["total"])))
                   for x in s["cnts"]])
-    return "(mkObs %s %s %s %s %s)" % (c_res(o, s), clist([cstr(x) for x in s["clients"]]), conds, sums, cnts)
+    qc = clist([cpair(cpair(cstr(c["u"]), cstr(c["i"])), cZ(c["qc"])) for c in s["conds"] if c.get("hasqc")])
+    sumc = clist([cpair(cstr(x["u"]), cZ(x["s"])) for x in s.get("sumc") or []])
+    return "(mkObs %s %s %s %s %s %s %s)" % (c_res(o, s), clist([cstr(x) for x in s["clients"]]), conds, sums, cnts, qc, sumc)
 
 
 def coq_case(case, obs):
@@ -190,7 +224,7 @@ def coq_case(case, obs):
     cfg = "(mkCfg %s %s)" % (clist([cstr(u) for u in case["ups"]]), cZ(case["cmax"]))
     if steps is None or len(steps) != len(case["ops"]):
         # harness panic: a one-step trace the model cannot agree with
-        return "(CHist %s [(TickTimeout, mkObs ROk [] [] [] [])])" % cfg
+        return "(CHist %s [(TickTimeout, mkObs ROk [] [] [] [] [] [])])" % cfg
     tr = [cpair(c_op(o, s), c_obs(o, s)) for o, s in zip(case["ops"], steps)]
     return "(CHist %s %s)" % (cfg, clist(tr))
 
